@@ -673,20 +673,37 @@ def _random_history(rnd, n):
     return ops
 
 
+def _alphabet_Bq(t, h):
+    """stream B of the quick tier: stream B's alphabet without the category name B"""
+    return [o for o in _alphabet_B(t, h) if not (o[0] == 'add' and o[2] == B)]
+
+
+def _first_last(n):
+    return [0] if n == 1 else [0, n - 1]
+
+
 def gen_cases(seed, tier):
     rnd = random.Random(seed)
     cases = []
     quick = tier == 'quick'
-    # stream A: full placement alphabet, all live databases as targets
-    LA = 3
-    preA = [['new']] if quick else [['new'], ['add', 0, A, [('m', 1)], [], [('-', 2)], ['append']]]
-    for seq in _enumerate(_alphabet_A, LA, lambda n: [0] if n == 1 else [0, n - 1], preA):
+    # stream A: full placement alphabet (4 names x 8 placements + derive/freeze/unknown) on the first and the
+    # newest database; thorough: the same after a first category A
+    for seq in _enumerate(_alphabet_A, 3, _first_last, [['new']]):
         cases.append(_case(seq, 'A'))
-    # stream B: reduced alphabet, every live database is a target
-    LB = 4 if quick else 5
-    for seq in _enumerate(_alphabet_B, LB, (lambda n: list(range(n))) if quick else
-                          (lambda n: [0] if n == 1 else [0, n - 1]), [['new']]):
-        cases.append(_case(seq, 'B'))
+    if not quick:
+        for seq in _enumerate(_alphabet_A, 3, _first_last,
+                              [['new'], ['add', 0, A, [('m', 1)], [], [('-', 2)], ['append']]]):
+            cases.append(_case(seq, 'A'))
+    # stream B: reduced alphabet; quick: length 4 on first + newest database; thorough: length 4 on every live
+    # database and length 5 on the newest
+    if quick:
+        for seq in _enumerate(_alphabet_Bq, 4, _first_last, [['new']]):
+            cases.append(_case(seq, 'B'))
+    else:
+        for seq in _enumerate(_alphabet_B, 4, lambda n: list(range(n)), [['new']]):
+            cases.append(_case(seq, 'B'))
+        for seq in _enumerate(_alphabet_B, 5, lambda n: [n - 1], [['new']]):
+            cases.append(_case(seq, 'B'))
     # stream C: hand-written histories (the shapes behind the defects found while building the check)
     for seq in CORPUS:
         cases.append(_case(seq, 'corpus'))
